@@ -3505,7 +3505,8 @@ namespace jsonschema {
                 return walk_state::advance;
             }
 
-            eval_context<Json> this_context(context, this->keyword());
+            // the elements are validated under fresh flags: what is evaluated inside an element is not evaluated in this array
+            eval_context<Json> this_context(context, this->keyword(), evaluation_flags{});
 
             std::size_t contains_count = 0;
             collecting_error_listener<Json> local_reporter;
